@@ -52,6 +52,7 @@ func byteWrites(fn *ssa.Function) []string {
 
 func runC29(c *Ctx) {
 	w := c.W
+	c29Extras3(c)
 	pkg := "z/tls"
 	if w.Pkg(pkg) == nil {
 		c.Undecided("R-LAYOUT", pkg, "package", "-", "not loaded")
